@@ -267,6 +267,11 @@ func (s *Session) readHandshake(msg Message) error {
 		}
 		s.hsIndex = 4
 		s.nonce = noncePostHandshake
+	case !s.isInit && s.hsIndex == 3 && nonce == nonceInitDone:
+		// a repeated InitDone is answered with the RespDone again, but only if it is ours.
+		if _, err := s.cipherIn.Decrypt(nil, uint64(nonceInitDone), msg.HeaderBytes(), msg.Body()); err != nil {
+			return errors.Wrapf(err, "readInitDone")
+		}
 	case (s.isInit && nonce%2 == 1) || (!s.isInit && nonce%2 == 0):
 		return nil
 	default:
